@@ -7,21 +7,21 @@ import (
 
 // Cfg tunes the random path generator.
 type Cfg struct {
-	Depth     int  // nesting budget (filters, operators)
-	MaxSteps  int  // accessor steps per chain
-	Methods   bool // numeric/string/boolean methods
-	Datetime  bool // datetime methods
-	KeyValue  bool
-	Vars      bool
-	Arith     bool
-	Regex     bool
-	Any       bool // .**
-	HardErrs  bool // $missing, .datetime("tmpl"), bad decimal args
-	Keys      []string
-	VarNames  []string
-	Strs      []string
-	Nums      []string // numeric literal texts (non-negative), e.g. "0","1","1.5"
-	OnlyAccessors bool // C07: accessors + filters only
+	Depth         int  // nesting budget (filters, operators)
+	MaxSteps      int  // accessor steps per chain
+	Methods       bool // numeric/string/boolean methods
+	Datetime      bool // datetime methods
+	KeyValue      bool
+	Vars          bool
+	Arith         bool
+	Regex         bool
+	Any           bool // .**
+	HardErrs      bool // $missing, .datetime("tmpl"), bad decimal args
+	Keys          []string
+	VarNames      []string
+	Strs          []string
+	Nums          []string // numeric literal texts (non-negative), e.g. "0","1","1.5"
+	OnlyAccessors bool     // C07: accessors + filters only
 }
 
 // DefaultCfg is the general-purpose configuration.
@@ -30,7 +30,7 @@ func DefaultCfg() Cfg {
 		Depth: 3, MaxSteps: 4, Methods: true, Datetime: false, KeyValue: true, Vars: true, Arith: true,
 		Regex: true, Any: true, HardErrs: true,
 		Keys:     []string{"a", "b", "c"},
-		VarNames: []string{"v", "w", "arr", "obj", "nul"},
+		VarNames: []string{"v", "w", "arr", "sarr", "obj", "nul"},
 		Strs:     []string{"a", "ab", "b", "", "x", "1", "true"},
 		Nums:     []string{"0", "1", "2", "3", "1.5", "2.0", "10", "0.5"},
 	}
@@ -306,7 +306,7 @@ func (g *G) Pred(depth int, inFilter, inSub bool) *N {
 	case 6:
 		var r *N
 		if g.C.Vars && g.R.IntN(4) == 0 {
-			r = &N{K: KVar, S: "w"}
+			r = &N{K: KVar, S: g.pick([]string{"w", "w", "sarr", "arr", "nul"})}
 		} else {
 			r = &N{K: KStr, S: g.pick([]string{"a", "", "ab"})}
 		}
